@@ -50,6 +50,13 @@ def _pair_order(t):
     return None if not found else "mixed"
 
 
+def _none_test(c):
+    """`x is None` / `x is not None` (possibly negated): asking whether a cell was given is not a use of it"""
+    while getattr(c, "op", None) in ("not", "truthy") and c.args:
+        c = c.args[0]
+    return getattr(c, "op", None) in ("is", "isnot", "const")
+
+
 def check(ctx):
     # positional parameters keep their documented positions (a reordering survives every keyword call)
     from ..sigrules import signatures as _signatures
@@ -157,7 +164,7 @@ def check(ctx):
         # the check is whatever raises under a condition on the extent of the cell (wherever it lives, whatever it is called)
         chk = [i for i, e in enumerate(ev) if e["kind"] == "raise" and any(_tq.has_size(c_, "D2") for c_, _p in e["pc"])]
         checkers = {ev[i].get("short") for i in chk}
-        first_use = [i for i, e in enumerate(ev) if e["kind"] in ("validate", "mutate") or (e["kind"] == "branch" and e.get("short") not in checkers)]
+        first_use = [i for i, e in enumerate(ev) if e["kind"] in ("validate", "mutate") or (e["kind"] == "branch" and e.get("short") not in checkers and not _none_test(e.get("cond")))]
         ok = bool(chk) and (not first_use or min(chk) < min(first_use))
         condt = [c for i in chk for c, pol in ev[i]["pc"]]
         conds = [repr(c) for c in condt]
